@@ -6,6 +6,7 @@ path on either side, DC envelope shape, blob re-layout at rest (LAPS style).
 """
 from __future__ import annotations
 
+import random
 import typing as t
 
 from checks import common, drive, offline, plan as P
@@ -43,6 +44,11 @@ def gen_plan(rng, i: int, tier: str) -> dict:
             "dc": {"omit_l2_at_31": rng.random() < 0.5, "domain": "d" * rng.randrange(0, 12) + ".test", "forest": "forest.test"},
             "delivery": rng.choice((None, {"mode": "rand", "seed": rng.getrandbits(16), "bias": "small"})),
             "ops": [], "pmode": pmode, "umode": umode}
+    r2 = random.Random(plan["seed"])
+    if r2.random() < 0.3:
+        # the wall clock keeps moving: every reading is later than the one before, so a call that starts within a few ticks of an
+        # interval boundary sees the boundary pass while it runs
+        plan["clock_tick_ns"] = r2.choice((100, 900, 100_000))
     ops = plan["ops"]
     pfl, ufl = rng.choice(("sync", "async")), rng.choice(("sync", "async"))
     if pmode == "offline":
@@ -149,7 +155,8 @@ class C01(common.Check):
     id = "C01"
     level = "exploration"
     rule = ("case = plan [set simulated clock (interval-boundary biased); protect via offline root-key cache | online seed-key reply | online "
-            "public-key reply; advance clock (0, 1 tick, across L2/L1/L0 boundaries); optionally a second protect on the same cache (same or "
+            "public-key reply - in 30% of the plans under a wall clock that advances 1..1000 ticks per reading, so that a call starting just "
+            "before an L0 boundary sees it pass; advance clock (0, 1 tick, across L2/L1/L0 boundaries); optionally a second protect on the same cache (same or "
             "another SID) after the clock moved; optional re-layout of the stored blob (ciphertext "
             "trailing the envelope); unprotect via offline root key | online as authorised principal with a fresh cache | warm shared cache "
             "(twice)], both flavours on either side, PRNG TCP segmentation, DC envelope shape knob (L2 key omitted at L2=31), 4 hashes x "
@@ -158,7 +165,7 @@ class C01(common.Check):
     components = {"client": "real (public API both flavours, KeyCache, RPC client, codecs, crypto)", "DC": "model (RefDC, independent derivation)",
                   "clock / entropy / network": "simulated", "security context": "stub (StubCtx)", "cross-check": "ref.cms decrypts every emitted blob"}
     assumptions = ["client and DC share the simulated clock in C01 plans (skew is C17's subject)"]
-    required_fired = ("mode_pub", "mode_nonce", "pos_l2_31", "relayout", "relayout_by_library", "roundtrip_ok", "pt_big", "two_protects_one_cache")
+    required_fired = ("mode_pub", "mode_nonce", "pos_l2_31", "relayout", "relayout_by_library", "roundtrip_ok", "pt_big", "two_protects_one_cache", "moving_clock", "l0_boundary_during_protect")
 
     def cases(self, tier, seed):
         rng = prng.stream(seed, "C01")
@@ -168,6 +175,10 @@ class C01(common.Check):
     def run_case(self, case):
         tr = P.execute_plan(case)
         viol, probes = judge(case, tr)
+        if case.get("clock_tick_ns"):
+            probes["moving_clock"] = 1
+            d0 = case["clock_ft"] % (1024 * B)
+            probes["l0_boundary_during_protect"] = int(0 < 1024 * B - d0 <= case["clock_tick_ns"] // 100)
         st = tr.world.stats
         return {"viol": viol, "digest": tr.world.digest(), "key": common.key_hash(case),
                 "fired": {"clk": st.get("clk", 0), "seg": st.get("seg", 0), "choice_points": st.get("choice_points", 0)},
@@ -176,6 +187,8 @@ class C01(common.Check):
     def shrink(self, case):
         if case.get("delivery"):
             yield dict(case, delivery=None)
+        if case.get("clock_tick_ns"):
+            yield dict(case, clock_tick_ns=0)
         ops = case["ops"]
         for i, o in enumerate(ops):
             if o["op"] == "clock":
